@@ -616,6 +616,53 @@ def fam_aggregates(pool):
                                                     (PTuple([PWild(), POr([PLit(U8, 1), PLit(U8, 2)])]), Lit(U64, 12)),
                                                     (PTuple([PBind('x'), PBind('y')]), Bin('^', Var('x'), Cast(Var('y'), U64)))])))],
       ('t',), 'match on tuple with literals, or-pattern, bindings')
+    # copies of aggregates followed by writes to one side and reads of the other (value semantics of
+    # `let snap = cur;`): shapes in which copy propagation / memcpy optimizations must notice the write
+    k64 = Cast(Var('k'), U64)
+    pre = [Let('cur', Var('s'), mut=True), IfS(Bin('==', Var('k'), Lit(U8, 0)), [AssignField('cur', ['a'], Lit(U8, 1))])]
+    K('snap_struct', [Fn('snap_struct', [('s', S2), ('k', U8)], Tuple([U64, U64, U8, U8]),
+                         Block(pre + [Let('snap', Var('cur')), AssignField('cur', ['b'], Bin('^', Field(Var('cur'), 'b'), Lit(U64, 0xdead))),
+                                      AssignField('cur', ['c'], Var('k'))],
+                               MkTuple([Field(Var('snap'), 'b'), Field(Var('cur'), 'b'), Field(Var('snap'), 'c'), Field(Var('snap'), 'a')])))],
+      ('s2', 'a8'), 'snapshot of a struct, then non-first fields of the original overwritten, snapshot read')
+    K('snap_struct_rev', [Fn('snap_struct_rev', [('s', S2), ('k', U8)], Tuple([U64, U64, U8]),
+                             Block(pre + [Let('snap', Var('cur'), mut=True), AssignField('snap', ['b'], k64), AssignField('snap', ['c'], Lit(U8, 3))],
+                                   MkTuple([Field(Var('cur'), 'b'), Field(Var('snap'), 'b'), Field(Var('cur'), 'c')])))],
+      ('s2', 'a8'), 'copy modified, original read')
+    K('snap_return', [Fn('snap_return', [('s', S2), ('k', U8)], S2,
+                         Block(pre + [Let('snap', Var('cur')), AssignField('cur', ['b'], Lit(U64, 0xdead)), AssignField('cur', ['c'], Lit(U8, 0xee))], Var('snap')))],
+      ('s2', 'a8'), 'snapshot returned whole after the original was overwritten')
+    K('snap_whole', [Fn('snap_whole', [('s', S2), ('k', U8)], Tuple([U64, U64, U8]),
+                        Block(pre + [Let('saved', Field(Var('cur'), 'b')), Let('snap', Var('cur')),
+                                     Assign('cur', MkStruct(S2, [Lit(U8, 7), Lit(U64, 8), Var('k')]))],
+                              MkTuple([Var('saved'), Field(Var('snap'), 'b'), Field(Var('cur'), 'c')])))],
+      ('s2', 'a8'), 'field saved into a scalar and snapshot taken, then the whole original overwritten')
+    K('snap_tuple', [Fn('snap_tuple', [('t', Tuple([U64, U8])), ('k', U8)], Tuple([U8, U8, U64]),
+                        Block([Let('cur', Var('t'), mut=True), IfS(Bin('==', Var('k'), Lit(U8, 0)), [AssignField('cur', ['0'], Lit(U64, 1))]),
+                               Let('snap', Var('cur')), AssignField('cur', ['1'], Var('k'))],
+                              MkTuple([TupGet(Var('snap'), 1), TupGet(Var('cur'), 1), TupGet(Var('snap'), 0)])))],
+      ('t', 'a8'), 'tuple snapshot, second element of the original overwritten')
+    K('snap_array', [Fn('snap_array', [('arr', Array(U16, 3)), ('k', U8)], Tuple([U16, U16, U16]),
+                        Block([Let('cur', Var('arr'), mut=True), IfS(Bin('==', Var('k'), Lit(U8, 0)), [AssignIndex('cur', Lit(U64, 0), Lit(U16, 1))]),
+                               Let('snap', Var('cur')), AssignIndex('cur', Lit(U64, 2), Cast(Var('k'), U16)), AssignIndex('cur', Lit(U64, 1), Lit(U16, 77))],
+                              MkTuple([Index(Var('snap'), Lit(U64, 2)), Index(Var('cur'), Lit(U64, 2)), Index(Var('snap'), Lit(U64, 1))])))],
+      ('arr', 'a8'), 'array snapshot, constant-index elements of the original overwritten')
+    K('snap_loop', [Fn('snap_loop', [('s', S2), ('k', U8)], Tuple([U64, U64, U8]),
+                       Block([Let('state', Var('s'), mut=True), Let('acc', Lit(U64, 0), mut=True), Let('j', Lit(U64, 0), mut=True),
+                              While(Bin('<', Var('j'), Lit(U64, 2)),
+                                    [Let('before', Var('state')),
+                                     AssignField('state', ['b'], Bin('^', Field(Var('state'), 'b'), Bin('+', k64, Var('j')))),
+                                     AssignField('state', ['c'], Var('k')),
+                                     Assign('acc', Bin('^', Bin('<<', Var('acc'), Lit(U64, 7)), Bin('^', Field(Var('before'), 'b'), Cast(Field(Var('before'), 'c'), U64)))),
+                                     Assign('j', Bin('+', Var('j'), Lit(U64, 1)))], 2)],
+                             MkTuple([Var('acc'), Field(Var('state'), 'b'), Field(Var('state'), 'c')])))],
+      ('s2', 'a8'), 'loop-carried struct: each iteration snapshots it, updates non-first fields and reads the snapshot')
+    K('snap_nested', [Fn('snap_nested', [('n', NEST), ('i', U64), ('k', U8)], Tuple([U64, U64, U8, U8]),
+                         Block([Let('cur', Var('n'), mut=True), IfS(Bin('==', Var('k'), Lit(U8, 0)), [AssignField('cur', ['s', 'a'], Lit(U8, 1))]),
+                                Let('snap', Var('cur')), AssignField('cur', ['s', 'b'], Var('i')), AssignField('cur', ['s', 'c'], Var('k'))],
+                               MkTuple([Field(Field(Var('snap'), 's'), 'b'), Field(Field(Var('cur'), 's'), 'b'),
+                                        Field(Field(Var('snap'), 's'), 'c'), Index(Field(Var('snap'), 'arr'), Lit(U64, 1))])))],
+      ('n', 'i', 'a8'), 'nested struct snapshot, inner non-first fields of the original overwritten')
     return ks
 
 
@@ -834,8 +881,34 @@ def fam_asm_misc():
       lambda env: (F, z3.BitVecVal(1, 64), U64), 'x ** 0', args=('a64',), params='x: u64')
     K('asm_exp_one_exp', '    asm(a: x, b: 1u64, c) { exp c a b; c: u64 }',
       lambda env: (F, env['a64'], U64), 'x ** 1', args=('a64',), params='x: u64')
+    K('asm_mul_consts_overflow', '    asm(a: 0x8000000000000000u64, b: 4u64, c, d: x) { mul c a b; add c c d; c: u64 }',
+      lambda env: (z3.BoolVal(True), env['a64'], U64), 'product of two known constants overflows: the VM panics',
+      args=('a64',), params='x: u64')
+    K('asm_mul_consts', '    asm(a: 0x100000000u64, b: 0xffffffffu64, c, d: x) { mul c a b; add c c d; c: u64 }',
+      lambda env: (z3.ULT(env['a64'] + 0xffffffff00000000, env['a64']), env['a64'] + 0xffffffff00000000, U64),
+      'product of two known constants just below 2^64', args=('a64',), params='x: u64')
     K('asm_mlog_consts', '    asm(a: x, b: 2u64, c) { mlog c a b; c: u64 }', None, 'log2 x (spec: builds only)', args=('a64',), params='x: u64')
     K('asm_mroo_consts', '    asm(a: x, b: 2u64, c) { mroo c a b; c: u64 }', None, 'sqrt x (spec: builds only)', args=('a64',), params='x: u64')
+    return ks
+
+
+def fam_intrinsics():
+    """kernels around IR instructions that ordinary expressions never produce (equivalence checks
+    only; no reference semantics): message output."""
+    ks = []
+
+    def K(nm, body, note, args=('a64', 'b64'), params='x: u64, y: u64'):
+        k = AsmKernel(nm, [], nm, list(args), 'intr', note)
+        k.raw_sway = f'fn {nm}({params}) -> u64 {{\n{body}\n}}\n'
+        k.ret = U64
+        k.spec_fn = None
+        ks.append(k)
+
+    R = '0x00000000000000000000000000000000000000000000000000000000000000a1'
+    K('intr_smo_tuple', f'    __smo({R}, (x, 7u64), y);\n    x', 'message output: data (x, 7), y coins (balance 1)')
+    K('intr_smo_u8', f'    __smo({R}, 5u8, y);\n    x', 'message output: one-byte payload, y coins')
+    K('intr_smo_size_coins', f'    __smo({R}, (x, y, 9u64), 1);\n    __smo({R}, x, 0);\n    y',
+      'two message outputs: 24-byte payload with 1 coin, then 8-byte payload with 0 coins')
     return ks
 
 
@@ -877,7 +950,7 @@ def build_corpus(tier='quick', seed=0, asm_rules=None, families=None):
         p = Package(f'k{pool.lower()}', pool, ks_)
         p.extra_types = [E2]
         pk.append(p)
-    asm_ks = fam_asm_misc() + (asm_kernels_from_rules(asm_rules) if asm_rules else [])
+    asm_ks = fam_asm_misc() + fam_intrinsics() + (asm_kernels_from_rules(asm_rules) if asm_rules else [])
     for i, c in enumerate(chunk(asm_ks, per)):
         pk.append(Package(f'kasm{i}', 'int', c))
     if families:
